@@ -94,7 +94,12 @@ func decomposeCond(v ssa.Value) (a atom, ok bool) {
 	return atom{subj: canon(v), opaque: true}, true
 }
 
-func extractTable(fn *ssa.Function) (*dtable, error) {
+func extractTable(fn *ssa.Function) (*dtable, error) { return extractTableOpt(fn, false) }
+
+// extractTableCut cuts loops at their back edges (each loop body is walked at most once per path).
+func extractTableCut(fn *ssa.Function) (*dtable, error) { return extractTableOpt(fn, true) }
+
+func extractTableOpt(fn *ssa.Function, cut bool) (*dtable, error) {
 	if fn == nil || len(fn.Blocks) == 0 {
 		return nil, fmt.Errorf("no body")
 	}
@@ -111,6 +116,9 @@ func extractTable(fn *ssa.Function) (*dtable, error) {
 			return fmt.Errorf("too many paths")
 		}
 		if _, seen := f.path[f.b]; seen {
+			if cut {
+				return nil
+			}
 			return fmt.Errorf("loop in %s: not a decision table", shortName(fn))
 		}
 		path := map[*ssa.BasicBlock]*ssa.BasicBlock{}
